@@ -101,7 +101,7 @@ def run_one(exe, d, cf, seed):
         rad = cf["mode"] == "rhdrad"
         # with radiation the box must be open: in a periodic box of negligible optical depth packets never terminate
         per = (False, False, False) if rad else (True, True, True)
-        p = rhdparams.rhd_param(d, ncell=(8, 8, 8), nsub=(2, 2, 2), periodic=per, total_time=1.0e-3,
+        p = rhdparams.rhd_param(d, ncell=(16, 8, 8) if cf.get("aniso") else (8, 8, 8), nsub=(2, 2, 2), periodic=per, total_time=1.0e-3,
                                 radiation=rad, nphoton=2000, niter=2, seed=seed, dump_every_step=cf["mode"] == "restart",
                                 max_backups=cf["maxb"], extra=extra + blocks)
         txt = open(p).read().replace("type: AsciiFile", "type: Gadget").replace("  snapshot time: -1 s\n", "" if cf["snaps"] else "  snapshot time: -1 s\n")
@@ -122,6 +122,13 @@ def run_one(exe, d, cf, seed):
         if os.path.exists(tr):
             os.remove(tr)
         rc, out = vlib.sh("cd %s && %s > run%d.log 2>&1" % (d, cmd, i), timeout=90, env=env)
+        if rc == 124 and i == 0:
+            # killed by the time limit: a loaded machine or a genuine hang - decided by one repetition with a generous limit
+            for fn in glob.glob(os.path.join(d, "snap_*")) + glob.glob(os.path.join(d, "restart.*")):
+                os.remove(fn)
+            if os.path.exists(tr):
+                os.remove(tr)
+            rc, out = vlib.sh("cd %s && %s > run%d.log 2>&1" % (d, cmd, i), timeout=400, env=env)
         ev = []
         if os.path.exists(tr):
             for line in open(tr):
@@ -180,6 +187,7 @@ def run(c):
             for key in ("live", "ionsurf", "mask", "turb", "snaps"):
                 must.append(rng.choice([x for x in cand if x[key] == 1 and (key != "ionsurf" or x["live"] == 1)]))
             if mode == "rhd":
+                must.append(rng.choice([x for x in cand if x["aniso"] == 1 and x["live"] == 1 and x["ionsurf"] == 1]))
                 for fs in (2, 9):
                     must.append(rng.choice([x for x in cand if x["first"] == fs]))
             if mode == "restart":
@@ -193,7 +201,7 @@ def run(c):
         if k not in seen:
             seen.add(k)
             sample.append(x)
-    nrun = 24 if tier == "quick" else 300
+    nrun = 26 if tier == "quick" else 300
     rest = [x for x in cfgs if json.dumps(x, sort_keys=True) not in seen]
     sample = sample[:nrun] if tier == "quick" else sample + rng.sample(rest, min(len(rest), nrun - len(sample)))
 
